@@ -401,6 +401,15 @@ class Act(object):
 
             if parts and parts[0]:  # not absolute so do relative substitutions
                 if parts[0] == 'framer':  #  framer relative addressing
+                    # relation part framer, frame or actor must be followed by name part
+                    if (len(parts) < 2 or
+                            (parts[2:3] == ['frame'] and len(parts) < 4) or
+                            (parts[2:3] == ['frame'] and parts[4:5] == ['actor']
+                                                     and len(parts) < 6) or
+                            (parts[2:3] == ['actor'] and len(parts) < 4)):
+                        raise excepting.ResolveError("ResolveError: Incomplete relative"
+                            " pathname.", ipath, self, self.human, self.count)
+
                     if parts[1] == 'me': # current framer
                         parts[1] = self.frame.framer.name
                     elif parts[1] == 'main': # current main framer
